@@ -2,7 +2,7 @@
 import sympy as sp
 from sympy import Symbol, Function, S
 from ..ir import (AnalysisBroken, Undecided, show, strip, strip_casts, walk_stmts, stmt_exprs, walk_expr, calls,
-                  all_exprs, stmt_children)
+                  all_exprs, stmt_children, exchanges)
 from ..symx import Symx, State, Arr, is_zero
 from .. import guards as G
 
@@ -58,6 +58,19 @@ def enclosing(body, pred):
             rec(c, stack + [s])
     rec(body, [])
     return res
+
+
+def stmt_stack(body, target):
+    """Statements enclosing statement `target` under `body`, outermost first (target included)."""
+    def rec(s, stack):
+        if s is target:
+            return stack + [s]
+        for c in stmt_children(s):
+            r = rec(c, stack + [s])
+            if r:
+                return r
+        return None
+    return rec(body, []) or []
 
 
 def check(prog, ctx):
@@ -145,21 +158,21 @@ def check(prog, ctx):
         # (2) exchange of whole rows
         swap_ok = False
         for s in before:
-            for e in all_exprs(s):
-                if e.get('k') == 'Call' and (e.get('callee') or {}).get('q') == 'std::swap' and len(e['args']) == 2:
-                    a0, a1 = strip_casts(e['args'][0]), strip_casts(e['args'][1])
+            for a0, a1, e, xst in exchanges(s):
+                if True:
                     if a0.get('k') == 'Index' and a1.get('k') == 'Index' and strip(a0['base']).get('name') == w and strip(a1['base']).get('name') == w:
                         ids = {show(strip_casts(a0['idx'])), show(strip_casts(a1['idx']))}
                         if sel_var and ids == {v, sel_var}:
                             # the exchange must happen whenever the selected row differs from the diagonal row
-                            stk = [st_ for n_, stk_ in enclosing(s, lambda x: x is e) for st_ in stk_ if st_['k'] in ('If', 'For', 'While', 'Do')]
+                            anchor = xst[0]
+                            stk = [st_ for st_ in stmt_stack(s, anchor) if st_ is not anchor and st_['k'] in ('If', 'For', 'While', 'Do')]
                             conds_ok = True
                             for st_ in stk:
                                 if st_['k'] != 'If':
                                     conds_ok = False
                                     continue
                                 ct = show(st_['cond']).replace(' ', '')
-                                in_then = any(x is e for s2 in walk_stmts(st_['then']) for e2 in stmt_exprs(s2) for x in walk_expr(e2))
+                                in_then = any(s2 is anchor for s2 in walk_stmts(st_['then']))
                                 if not (in_then and ct in ('%s!=%s' % (sel_var, v), '%s!=%s' % (v, sel_var))):
                                     conds_ok = False
                             swap_ok = conds_ok
